@@ -1,6 +1,6 @@
 use std::collections::BTreeMap;
 
-use crate::intermediate::{constraints::*, error::*, *};
+use crate::intermediate::{constraints::*, error::*, types::DistinguishedValue, *};
 
 impl Constraint {
     pub(super) fn link_cross_reference(
@@ -11,6 +11,48 @@ impl Constraint {
         match self {
             Constraint::Subtype(t) => t.set.link_cross_reference(identifier, tlds),
             _ => Ok(()),
+        }
+    }
+
+    /// Replaces references to the given named numbers by their values.
+    pub(super) fn link_named_numbers(&mut self, named: &[DistinguishedValue]) {
+        fn link_value(value: &mut ASN1Value, named: &[DistinguishedValue]) {
+            if let ASN1Value::ElsewhereDeclaredValue {
+                module: None,
+                identifier,
+                ..
+            } = value
+            {
+                if let Some(d) = named.iter().find(|d| &d.name == identifier) {
+                    *value = ASN1Value::Integer(d.value);
+                }
+            }
+        }
+        fn link_element(element: &mut SubtypeElements, named: &[DistinguishedValue]) {
+            match element {
+                SubtypeElements::SingleValue { value, .. } => link_value(value, named),
+                SubtypeElements::ValueRange { min, max, .. } => {
+                    if let Some(min) = min {
+                        link_value(min, named)
+                    }
+                    if let Some(max) = max {
+                        link_value(max, named)
+                    }
+                }
+                _ => (),
+            }
+        }
+        fn link_set(set: &mut ElementOrSetOperation, named: &[DistinguishedValue]) {
+            match set {
+                ElementOrSetOperation::Element(e) => link_element(e, named),
+                ElementOrSetOperation::SetOperation(s) => {
+                    link_element(&mut s.base, named);
+                    link_set(&mut s.operant, named);
+                }
+            }
+        }
+        if let Constraint::Subtype(t) = self {
+            link_set(&mut t.set, named)
         }
     }
 
